@@ -48,6 +48,10 @@ SCENARIOS = {
     'async': {'program': ASYNC, 'schedule': []},
     'async-pause-kill': {'program': ASYNC, 'schedule': [['tick', 1], ['pause', 'pm'], ['tick', 3], ['play'], ['tick', 1], ['kill', 'k']]},
     'selfkill': {'program': gen.CATALOGUE['selfkill'], 'schedule': []},
+    # termination while paused: the stepping task is parked on the pause and must be released whatever the outcome
+    'kill-while-paused': {'program': MAIN, 'schedule': [['tick', 1], ['pause', 'pm'], ['tick', 2], ['kill', 'k']]},
+    'kill-while-paused-created': {'program': ASYNC, 'schedule': [['pause', 'p0'], ['tick', 1], ['kill', 'k']]},
+    'callback-while-paused': {'program': {'steps': [S([['soon', 'ok', 'c1'], ['call', 'pause', 'sp']], ['continue', 1, [], {}]), S([['out', 'x', 1]], ['value', 2])]}, 'schedule': [['tick', 3], ['play']]},
 }
 
 CONSTRUCT = {('on_create', 1), ('on_entering', 1), ('on_entered', 1)}
@@ -184,6 +188,17 @@ def execute(case):
                 fut = rec.get('_fut')
                 if fut is not None and fut.done() and not fut.cancelled() and fut.exception() is not None:
                     probe['raised'] = repr(fut.exception())
+        ex.drain()
+        released_at_termination = None
+        if ex.proc.has_terminated():
+            # judged before the completion phase: its final play() would release a stepping task that termination
+            # itself must release
+            for _ in range(6):
+                with ex.loop.as_running():
+                    if not ex.world.open_all_gates():
+                        break
+                ex.drain()
+            released_at_termination = ex.task.done()
         ex.settle(play=True, resumes=[31, 32, 33, 34], open_gates=True)
         fired = w.fault_fired
         views = ex.views()
@@ -250,7 +265,7 @@ def execute(case):
                     v('future-not-failed', f'future gives {fexc if fexc is None else fexc[:2]} / result {views.get("future_result", [None])[:2]}')
                 if views['closed'] is not True:
                     v('not-closed', str(views['closed']))
-                if not views.get('task_done'):
+                if not views.get('task_done') or released_at_termination is False:
                     v('stepping-blocked', 'the task running step_until_terminated() is not done')
     return {'violations': viol, 'nontrivial': True, 'classes': ['class:' + klass, 'point:' + _fname(fault).split('#')[0]], 'history': history}
 
